@@ -21,7 +21,10 @@ RULE = ('every Metric subclass of fedjax.core.metrics with a grid of constructor
         'pool of examples; random partitions into batches of 1 / 2 / 4 rows, random batch orders, masked rows at random '
         'positions filled with in-domain targets and arbitrary finite / NaN / Inf predictions, fully masked and empty inputs, '
         'ClientDataset.padded_batch / batch as batch sources, evaluate_model / ModelEvaluator (global and per-client params) / '
-        'metrics.evaluate_batch (mask and None); Stat algebra called directly on in- and out-of-domain scalars; '
+        'metrics.evaluate_batch (mask and None); Stat algebra called directly on in- and out-of-domain scalars; monoid laws '
+        '(associativity, commutativity, zero identity on both sides, left / right / tree folds, merge adds fields) on the '
+        'implementation\'s own single-example statistics straight from evaluate_example, for every metric configuration, '
+        'through result() and the raw fields; '
         'integer-valued statistics compared to 2^-22 relative (one float32 rounding of accum/weight), cross-entropy-valued '
         'ones to 1e-5(1+|x|), inside Coq; non-trivial = at least two real rows spread over at least two batches or at least '
         'one masked row; distinct = distinct case JSON')
@@ -304,7 +307,22 @@ def stat_cases(tier, rng):
     yield {'kind': 'stat', 'op': 'sum_reduce', 'args': [[rng.choice(acc[:7]) for _ in range(rng.randrange(0, 6))]]}
 
 
+def algebra_configs(tier, rng):
+  """Tuples of real pool rows whose single-example statistics are merged directly with each other."""
+  n = {'quick': 6, 'thorough': 60, 'search': 120}.get(tier, 6)
+  seeds = [rng.randrange(1, 10 ** 6) for _ in range(1 if tier == 'quick' else 4)]
+  for i in range(n):
+    k = rng.choice([3, 3, 4, 5])
+    rows = [rng.randrange(N_REAL) for _ in range(k)]
+    if i == 0:
+      rows = [0, 1, 2, 4]
+    yield {'pool_seed': rng.choice(seeds), 'rows': rows, 'model': 'plain' if i % 5 == 4 else 'dict'}
+
+
 def generate(tier, rng):
+  for cfg in algebra_configs(tier, rng):
+    for name in (METRIC_NAMES if cfg['model'] == 'dict' else PLAIN_NAMES):
+      yield {'kind': 'algebra', **cfg, 'metric': name}
   for cfg in configs(tier, rng):
     names = METRIC_NAMES if cfg['model'] == 'dict' else PLAIN_NAMES
     for name in names:
@@ -494,9 +512,78 @@ def _run_stat(case):
   return {'result': [_fin(float(s.result()))], 'stat': [_fin(v) for v in stat]}
 
 
+def _single_stat(seed, which, name, i):
+  """The statistic of pool row i straight from metric.evaluate_example (no vmap, not re-wrapped)."""
+  import jax.numpy as jnp
+  st = _setup()
+  cache = st.setdefault('single', {})
+  key = (seed, which, name, i)
+  if key not in cache:
+    if len(cache) > 6000:
+      cache.clear()
+    pool = pool_stats(seed)['pool']
+    ex = {k: jnp.asarray(v[i]) for k, v in pool.items()}
+    metric = st['grid'][which][name][0]
+    cache[key] = metric.evaluate_example(ex, st['apply'][which](None, ex))
+  return cache[key]
+
+
+def _stat_fields(s, shape):
+  """result(), and the raw fields with their values promoted to float64 (dtype names kept)."""
+  from fedjax.core import metrics as M
+  res, _ = _flat_result(s.result(), shape)
+  acc, _ = _flat_result(s.accum, shape)
+  out = {'result': [_fin(v) for v in res], 'accum': [_fin(v) for v in acc], 'dtypes': [str(np.asarray(s.accum).dtype)]}
+  if isinstance(s, M.MeanStat):
+    w, _ = _flat_result(s.weight, shape)
+    out['weight'] = [_fin(v) for v in w]
+    out['dtypes'].append(str(np.asarray(s.weight).dtype))
+  return out
+
+
+def _run_algebra(case):
+  st = _setup()
+  which, name, seed = case['model'], case['metric'], case['pool_seed']
+  metric = st['grid'][which][name][0]
+  ps = pool_stats(seed)
+  kind, shape, rows = ps[name]
+  ss = [_single_stat(seed, which, name, i) for i in case['rows']]
+  a, b, c = ss[0], ss[1], ss[2]
+  z = metric.zero()
+  left = z
+  for x in ss:
+    left = left.merge(x)
+  left_nozero = ss[0]
+  for x in ss[1:]:
+    left_nozero = left_nozero.merge(x)
+  right = ss[-1]
+  for x in reversed(ss[:-1]):
+    right = x.merge(right)
+  right_zero = z
+  for x in reversed(ss):
+    right_zero = x.merge(right_zero)
+  level = list(ss)
+  while len(level) > 1:
+    nxt = [x.merge(y) for x, y in zip(level[0::2], level[1::2])]
+    if len(level) % 2:
+      nxt.append(level[-1])
+    level = nxt
+  forms = {'ab_c': a.merge(b).merge(c), 'a_bc': a.merge(b.merge(c)), 'ab': a.merge(b), 'ba': b.merge(a),
+           'a': a, 'za': z.merge(a), 'az': a.merge(z), 'zz': z.merge(z), 'z': z,
+           'left': left, 'left_nozero': left_nozero, 'right': right, 'right_zero': right_zero, 'tree': level[0]}
+  return {'stat_kind': kind, 'K': int(np.prod(shape, dtype=np.int64)), 'uncovered': st['uncovered'],
+          'forms': {k: _stat_fields(v, shape) for k, v in forms.items()},
+          'singles': [_stat_fields(x, shape) for x in ss],
+          'vmapped': [rows[i] for i in case['rows']],
+          'batches': [{'rows': [i], 'mask': [True]} for i in case['rows']],
+          'rows': {str(i): rows[i] for i in case['rows']}}
+
+
 def run(case):
   if case['kind'] == 'stat':
     return _run_stat(case)
+  if case['kind'] == 'algebra':
+    return _run_algebra(case)
   st = _setup()
   cfg = {k: case[k] for k in ('pool_seed', 'api', 'batches', 'model')}
   full = _run_config(cfg)
@@ -521,6 +608,8 @@ def oracle(case, obs):
   out = []
   if case['kind'] == 'stat':
     return _stat_oracle(case, obs)
+  if case['kind'] == 'algebra':
+    return _algebra_oracle(case, obs)
   if obs['uncovered']:
     out.append(('uncovered-metric', 'built-in metric classes without a harness entry: ' + ', '.join(obs['uncovered'])))
   if not obs['extra_ok']:
@@ -543,6 +632,59 @@ def oracle(case, obs):
     if bad:
       out.append(('not-fold-of-examples', f'{name}: result differs from merging the single-example statistics one by one '
                   f'(entry {bad[0]}: {res[bad[0]]} vs {ref[bad[0]]})'))
+  return out
+
+
+def _algebra_oracle(case, obs):
+  """The monoid laws on the implementation's own single-example statistics, merged directly
+  with each other: associativity, commutativity, zero identity on both sides, every fold shape
+  against the left fold from zero(), and "merge adds the fields"; through result() and through
+  the raw fields (values promoted to float64)."""
+  out = []
+  name = case['metric']
+  tol = float(TOL_CE if _value_kind(case) == 'ce' else TOL_INT) * 4
+  f = obs['forms']
+
+  def differ(x, y):
+    for fld in ('result', 'accum', 'weight'):
+      if fld not in x:
+        continue
+      for i, (p, q) in enumerate(zip(x[fld], y[fld])):
+        if (p is None) != (q is None) or (p is not None and abs(p - q) > tol * (1 + abs(q))):
+          return f'{fld}[{i}]: {p} vs {q} (dtypes {x["dtypes"]} / {y["dtypes"]})'
+      if len(x[fld]) != len(y[fld]):
+        return f'{fld}: different number of entries'
+    return None
+  laws = [('merge-not-associative', 'ab_c', 'a_bc', '(a.merge(b)).merge(c) differs from a.merge(b.merge(c))'),
+          ('merge-not-commutative', 'ab', 'ba', 'a.merge(b) differs from b.merge(a)'),
+          ('zero-not-left-identity', 'za', 'a', 'zero().merge(a) differs from a'),
+          ('zero-not-right-identity', 'az', 'a', 'a.merge(zero()) differs from a'),
+          ('zero-not-idempotent', 'zz', 'z', 'zero().merge(zero()) differs from zero()'),
+          ('fold-shape', 'left_nozero', 'left', 'left fold without zero() differs from the left fold from zero()'),
+          ('fold-shape', 'right', 'left', 'right fold differs from the left fold from zero()'),
+          ('fold-shape', 'right_zero', 'left', 'right fold ending in zero() differs from the left fold from zero()'),
+          ('fold-shape', 'tree', 'left', 'balanced-tree fold differs from the left fold from zero()')]
+  for key, x, y, what in laws:
+    d = differ(f[x], f[y])
+    if d:
+      out.append((key, f'{name}: {what}: {d}'))
+  # merge adds the fields of the single-example statistics (they are in the Stat's domain)
+  singles = obs['singles']
+  for fld in ('accum', 'weight'):
+    if fld in f['left'] and all(v is not None for s_ in singles for v in s_[fld]):
+      want = [sum(s_[fld][i] for s_ in singles) for i in range(len(f['left'][fld]))]
+      for form in ('left', 'left_nozero', 'right', 'tree'):
+        got = f[form][fld]
+        if any(g is None or abs(g - w) > tol * (1 + abs(w)) for g, w in zip(got, want)):
+          out.append(('merge-not-sum-of-fields', f'{name}: {form} fold has {fld} {got}, the single-example {fld}s sum to {want}'))
+          break
+  # evaluate_example under vmap (what evaluate_batch uses) gives the same statistic as the direct call
+  for s_, v in zip(singles, obs['vmapped']):
+    flat = [x for e in v for x in (e if isinstance(e, (list, tuple)) else [e])]
+    mine = [x for p in zip(s_['accum'], s_['weight']) for x in p] if 'weight' in s_ else s_['accum']
+    if any((p is None) != (not math.isfinite(q)) or (p is not None and abs(p - q) > tol * (1 + abs(q))) for p, q in zip(mine, flat)):
+      out.append(('vmap-differs', f'{name}: vmap(evaluate_example) row differs from evaluate_example'))
+      break
   return out
 
 
@@ -618,6 +760,9 @@ def encode(case, obs):
       c = f'CSumReduce [{"; ".join(f(x) for x in a[0])}]'
     st = 'None' if obs['stat'] is None else f'(Some {_nql(obs["stat"])})'
     return f'(({c})%Q, mkO05 {fw.qlit(TOL_INT)} {_nql(obs["result"])}%Q {st}%Q)'
+  if case['kind'] == 'algebra':
+    obs = {**obs, 'result': obs['forms']['left']['result'], 'stat': None}
+    case = {**case, 'api': 'evaluate_model'}
   api = case['api']
   capi = 'ApiModel' if api not in ('evaluate_batch', 'evaluate_batch_nomask') else f'(ApiBatch {fw.cbool(api == "evaluate_batch")})'
   mean = obs['stat_kind'] == 'mean'
@@ -640,6 +785,8 @@ def encode(case, obs):
 def nontrivial(case, obs):
   if case['kind'] == 'stat':
     return case['op'] in ('merge', 'reduce')
+  if case['kind'] == 'algebra':
+    return True
   nb = sum(1 for b in obs['batches'] if any(b['mask'] or [True]))
   masked = any(not m for b in obs['batches'] for m in (b['mask'] or []))
   return (obs['n_real'] >= 2 and nb >= 2) or masked
@@ -648,6 +795,8 @@ def nontrivial(case, obs):
 def describe(case, obs):
   if case['kind'] == 'stat':
     return {'kind': 'stat-' + case['op']}
+  if case['kind'] == 'algebra':
+    return {'kind': 'algebra', 'metric': case['metric'], 'field_dtypes': '/'.join(obs['singles'][0]['dtypes'])}
   bs = obs['batches']
   return {'kind': 'eval', 'api': case['api'], 'metric': case['metric'],
           'source': 'explicit' if isinstance(case['batches'], list) else list(case['batches'])[0],
@@ -658,6 +807,9 @@ def describe(case, obs):
 
 
 def shrink(case):
+  if case['kind'] == 'algebra' and len(case['rows']) > 3:
+    for i in range(len(case['rows'])):
+      yield {**case, 'rows': case['rows'][:i] + case['rows'][i + 1:]}
   if case['kind'] != 'eval' or not isinstance(case['batches'], list):
     return
   bs = case['batches']
